@@ -62,6 +62,7 @@ var (
 	lastSite [MaxTasks]int32
 	prio     [MaxTasks]int
 	now      int64
+	seq      int64
 	dead     bool
 
 	steps    int64
@@ -156,6 +157,7 @@ func Reset(seed uint64, explicitTape []uint64) {
 		prio[i] = 0
 	}
 	now = 0
+	seq = 0
 	dead = false
 	steps = 0
 	switches = 0
@@ -573,6 +575,12 @@ func Sleep(d int64) bool {
 	}
 	return true
 }
+
+// Tick returns the next global event sequence number (total order over all
+// tasks of a run; used to stamp invoke/return events of recorded histories).
+//
+//go:norace
+func Tick() int64 { seq++; return seq }
 
 //go:norace
 func Now() int64 { return now }
